@@ -4,7 +4,7 @@
    input / capture functions (so any iteration order of the Python sets); `extract` instantiates them
    with the value table and node universe of a concrete source. *)
 From Coq Require Import List Bool Arith Lia.
-From IRV Require Import Base.Exn C18.Model C18.Spec C18.Struct C18.Proofs C18.Proofs2 C18.Proofs3 C18.Proofs4.
+From IRV Require Import Base.Exn C18.Model C18.Spec C18.Struct C18.Proofs C18.Proofs2 C18.Proofs3 C18.Proofs4 C18.Proofs5.
 Import ListNotations.
 
 (* The walk never runs out of the fuel the model gives it (so `Raise OtherError` in find_bounded is
@@ -118,9 +118,10 @@ Print Assumptions C18_ok_bounded.
    gives the source's value on every output (indeed on every needed value, Proofs4.sem_extracted).
    `_partial` because of the last hypothesis: for the producer-less needed values it should follow from
    "extract returned a graph": they are initializers (bound to the same constants by the extracted graph's
-   own initializer list, C18_inits) or, by C18_ok_bounded, listed inputs — but for values read only inside
-   nested bodies that link goes through the cloner's check (Model.clone_graph), which is modelled and
-   exercised by the correspondence but whose consequence is not proved here. *)
+   own initializer list, C18_inits) or listed inputs (C18_ok_bounded for direct inputs,
+   C18_unbounded_captured_raises for values read inside nested bodies).  What is missing is only the
+   assembly of these three facts at the level of `extract` (relating node ids to nodes of the universe
+   and the heap's producer table to the node list), not a fact about the algorithm. *)
 Theorem C18_semantics_partial :
   forall (T : Type) (interp : nat -> list (option T) -> list T -> list T) (dflt : T) (nouts : nat -> list nat)
          prod isinit nins ncaps inputs outputs isf gnodes univ ns inis (e0 e1 : nat -> T),
@@ -175,6 +176,33 @@ Proof.
   cbv zeta. split; [exact H1|]. split; [exact H2 | exact H3].
 Qed.
 Print Assumptions C18_extract_exact.
+
+(* C18_unbounded_raises for values read only inside nested bodies (DESIGN probe: the frontier check of
+   _find_subgraph_bounded_by_values misses them; the cloner's check rejects them, RuntimeError).
+   Stated as: if extract returns a graph and a body (any depth) of an extracted node reads a value that
+   nothing in the source region produces and that is not an initializer, then that value is listed in
+   `inputs` — i.e. otherwise extract raises.  More generally every captured value and every requested
+   output is bound (Proofs5.extract_ok_captures_bound). *)
+Theorem C18_unbounded_captured_raises :
+  forall h univ s inputs outputs e m S v,
+    extract h univ s inputs outputs = Ok e ->
+    In m (s_nodes s) -> In (n_id m) (e_nodes e) -> In S (n_subs m) -> In v (uses_rec_g S) ->
+    (forall m', In m' (s_nodes s) ->
+       ~ In v (n_outs m') /\ forall S', In S' (n_subs m') -> ~ In v (defs_rec_g S')) ->
+    h_init h v = false ->
+    In v (e_inputs e).
+Proof.
+  intros h univ s inputs outputs e m S v H Hm Hid HS Hv Hnone Hinit.
+  destruct (extract_ok_captures_bound h univ s inputs outputs e H v) as [Hb|[Hb|[Hb|Hb]]].
+  - right. exists m, S. split; [|split; assumption]. apply filter_In. split; [exact Hm | apply mem_In; exact Hid].
+  - exact Hb.
+  - exfalso. destruct (C18_extract_exact h univ s inputs outputs e H) as (o & parent & _ & _ & _ & _ & HI).
+    apply HI in Hb. destruct Hb as [(_ & _ & Hx)|(_ & _ & Hx)]; congruence.
+  - exfalso. destruct Hb as [m' [Hm' Ho]]. apply filter_In in Hm'. apply (proj1 (Hnone m' (proj1 Hm'))). exact Ho.
+  - exfalso. destruct Hb as [m' [S' [Hm' [HS' Hd]]]]. apply filter_In in Hm'.
+    apply (proj2 (Hnone m' (proj1 Hm')) S' HS'). exact Hd.
+Qed.
+Print Assumptions C18_unbounded_captured_raises.
 
 (* what u_ncaps pushes for a node: the values read anywhere inside its bodies that belong to the parent
    graph; for a node of a well-scoped graph these are exactly the values its bodies capture *)
